@@ -6,6 +6,7 @@ from chartgen import ITERABLE_KINDS, chart_text, entry_point, outcome
 from common import rng
 from ctx import MachineryError
 from props import _notes
+from common import exc_name  # noqa: E402
 
 
 def observe(cid, datas):
@@ -14,7 +15,7 @@ def observe(cid, datas):
     text = chart_text(res=192, sync=["0 = TS 4", "0 = B 120000"], tracks={"ExpertSingle": [f"{t} = N {i} 0" for t, i in datas]})
     kind, val = outcome(text)
     if kind == "raise":
-        rec["raised"] = type(val).__name__
+        rec["raised"] = exc_name(val)
         return rec
     trs = [t for _, dd in val.instrument_tracks.items() for _, t in dd.items()]
     for e in (trs[0].note_events if trs else []):
